@@ -214,6 +214,7 @@ func H_C04_verify_constructed() {
 
 // decoded messages: the alg consulted is the integer in the received protected bytes
 func H_C04_decoded() {
+	vPriorUse("prior")
 	vk := vChoose("wire.alg.kind", 4) // 0 int, 1 tstr, 2 bstr, 3 absent
 	var pairs []*vNodeT
 	var a int64
